@@ -21,4 +21,5 @@ SPEC = dict(
     timeout_quick=400, timeout_thorough=7200,
     case_preamble="Open Scope list_scope.\n",
     shard=8,
+    model="Model.C24 Model.C23",   # the case terms use C24's cfg record
 )
